@@ -848,6 +848,7 @@ func init() {
 			{"P1", "ZzCtlLeakPin"},
 			{"W1", "ZzCtlBump"},
 			{"A1", "ZzCtlSize"},
+			{"P2", "ZzCtlChainRoot"},
 		},
 	})
 }
@@ -883,5 +884,11 @@ func (t *Collection) ZzCtlBump(n *node) { // in-place aggregate update
 
 func (s *Store) ZzCtlSize() int64 { // plain read of the cursor
 	return s.size
+}
+
+func (t *Collection) ZzCtlChainRoot(r *rootNodeLoc) *nodeLoc { // tree handle of a version nobody pinned
+	t.rootLock.Lock()
+	defer t.rootLock.Unlock()
+	return r.chainedRootNodeLoc.root
 }
 `
